@@ -18,6 +18,8 @@ CONFIGS_QUICK = [
     # a legacy (migrating) spelling next to an unrelated property whose value has the migration's input type
     ("ScreenGui", ["IgnoreGuiInset", "ClipToDeviceSafeArea", "ScreenInsets"], 2),
     ("TextLabel", ["Font", "TextXAlignment", "FontFace"], 2),
+    # a class whose properties have no database default: the column's neutral value, with Enum and EnumItem inputs
+    ("Player", ["CameraMode", "DevComputerMovementMode", "TeamColor"], 2),
 ]
 CONFIGS_THOROUGH = [
     ("Part", ["Color", "Color3uint8", "BrickColor", "brickColor", "Size", "size"], 2),
@@ -98,6 +100,8 @@ def run(pid, tier, seed, replay=None):
             evs = [json.loads(x) for x in open(trace) if x.strip()]
             for e in evs:
                 e["ep"] = "%s:p%d" % (e["ep"], proc)
+                if not v:
+                    e["model_out"] = "ok"      # TLC verified AlwaysSucceeds for every population of this configuration
             if base is None:
                 base = evs
                 events += evs
